@@ -451,7 +451,7 @@ func spec_removedIn(fx []spec_Effect, x string) bool {
 }
 
 //@ func gengoCtx.pkgExecute
-//@   props C02 C07 C06 C05
+//@   props C02 C07 C06 C05 C04
 //@   requires c != nil && c.args != nil && c.universe != nil
 //@   requires forall i int :: 0 <= i && i < len(generators) ==> generators[i] != nil
 //@   requires c.universe.Package(pkg) != nil ==> spec_pkgOK(c.universe, c.universe.Package(pkg))
